@@ -1105,6 +1105,153 @@ async def slp(b: bytes) -> bytes:
 '''
 
 
+def shapes_program() -> str:
+    """Fixed module of shapes that stress specific conventions (always part of the corpus):
+    try nested in a try body (handler edges of successor blocks), ops that steal the SAME value several times
+    (displays of length 1..12 with repeated locals, tuples), __init__ methods in which an ALIAS of self
+    (isinstance narrowing cast, local, identity function, tuple/list packing) is used before an attribute is set."""
+    out = ['''from typing import List, Optional, Tuple, Dict, Set, Any
+class T:
+    def __init__(self, n: int) -> None:
+        self.n = n
+def mk(n: int) -> T:
+    if n < 0:
+        raise ValueError("neg")
+    return T(n)
+def parse(s: str) -> str:
+    if not s:
+        raise ValueError("empty")
+    return s + "!"
+def nt_str(s: str) -> str:
+    try:
+        prefix = parse("cfg")
+        try:
+            value = parse(s)
+        except ValueError:
+            return prefix + ":" + value
+    finally:
+        parse("done")
+    return value
+def nt_obj(n: int) -> T:
+    try:
+        a = mk(1)
+        try:
+            v = mk(n)
+        except ValueError:
+            return v
+    finally:
+        mk(2)
+    return v
+def nt_loop(n: int) -> int:
+    acc = 0
+    for i in range(n):
+        try:
+            p = mk(i)
+            try:
+                q = mk(n - 5)
+            except ValueError:
+                acc += q.n
+            finally:
+                acc += p.n
+        except KeyError:
+            acc += 1
+    return acc
+def nt_three(n: int) -> T:
+    try:
+        x = mk(0)
+        try:
+            y = mk(1)
+            try:
+                z = mk(n)
+            except ValueError:
+                return z
+        except KeyError:
+            return y
+    finally:
+        mk(3)
+    return x
+def ds_tuple2(n: int) -> Tuple[T, T]:
+    e = mk(n)
+    return (e, e)
+def ds_tuple3(n: int) -> Tuple[T, T, T]:
+    e = mk(n)
+    f = mk(n)
+    return (e, f, e)
+def ds_tuple_arg(e: T) -> Tuple[T, T]:
+    return (e, e)
+def ds_opt10(n: int) -> List[Optional[T]]:
+    edge = mk(n)
+    return [edge, None, None, None, None, None, None, None, None, edge]
+def ds_kept10(n: int) -> int:
+    edge = mk(n)
+    row: List[object] = [edge, None, None, None, None, None, None, None, None, edge]
+    return edge.n + len(row)
+def ds_arg10(edge: T) -> List[Optional[T]]:
+    return [edge, None, None, None, None, None, None, None, None, edge]
+def ds_dict(n: int) -> Dict[int, T]:
+    e = mk(n)
+    return {1: e, 2: e}
+def ds_set(n: int) -> Set[int]:
+    k = n * 1000003
+    return {k, k}
+def ident(x: Any) -> Any:
+    return x
+class Shape:
+    def __init__(self, n: int) -> None:
+        if isinstance(self, Polygon):
+            self.validate()
+        self.points = [n]
+    def validate(self) -> int:
+        return 0
+class Polygon(Shape):
+    def validate(self) -> int:
+        return len(self.points)
+class AliasLocal:
+    def __init__(self, n: int) -> None:
+        me = self
+        me.hook()
+        self.a = mk(n)
+    def hook(self) -> int:
+        return 0
+class AliasIdent:
+    def __init__(self, n: int) -> None:
+        ident(self).hook()
+        self.a = mk(n)
+    def hook(self) -> int:
+        return 0
+class AliasTuple:
+    def __init__(self, n: int) -> None:
+        t = (self, n)
+        t[0].hook()
+        self.a = mk(n)
+    def hook(self) -> int:
+        return 0
+class AliasList:
+    def __init__(self, n: int) -> None:
+        l = [self]
+        l[0].hook()
+        self.a = mk(n)
+    def hook(self) -> int:
+        return 0
+class AliasLate:
+    def __init__(self, n: int) -> None:
+        self.a = mk(n)
+        if isinstance(self, AliasLateSub):
+            self.hook()
+        self.b = mk(n)
+    def hook(self) -> int:
+        return 0
+class AliasLateSub(AliasLate):
+    def hook(self) -> int:
+        return self.b.n
+''']
+    for k in range(1, 13):
+        items = ", ".join("e" if i % 2 == 0 or k < 3 else "f" for i in range(k))
+        out.append(f"def ds_len{k}(n: int) -> List[T]:\n    e = mk(n)\n    f = mk(n + 1)\n    return [{items}]\n")
+        out.append(f"def ds_all{k}(n: int) -> List[T]:\n    e = mk(n)\n    return [{', '.join(['e'] * k)}]\n")
+    return "\n".join(out)
+
+
 def gen_program(rng, k: int) -> str:
     """One module with k functions built from statement templates over tracked objects."""
     out = [GEN_HEADER]
@@ -1659,7 +1806,7 @@ def run(ctx) -> None:
         g = vlib.Rng(ctx.seed, "gen")
         gen_cases = [{"kind": "gen", "name": f"generated{i}", "text": gen_program(g, ctx.n(8, 12))}
                      for i in range(ctx.n(4, 60))]
-        cases = gen_cases[:4] + cases + gen_cases[4:]
+        cases = [{"kind": "gen", "name": "shapes", "text": shapes_program()}] + gen_cases[:4] + cases + gen_cases[4:]
         t0 = time.time()
         dumps, status, failures, counters = run_dump(repo, cases, tmp, int(os.environ.get("VERIF_C06_PROCS", "8")), pretty=True,
                                                      timeout=170 if ctx.quick else 1700, chunk=6 if ctx.quick else 12,
